@@ -190,4 +190,50 @@ pub mod proofs {
         kani::cover!(ktail < khead, "tail wrapped, head not yet");
         core::mem::forget(ring);
     }
+
+    // ------------------------------------------------------------------ C18: teardown
+    /// Drop for IoUring under the mapping + descriptor contracts of the stub kernel: the ring's
+    /// descriptor and each *distinct* mapping are released exactly once, nothing else is touched —
+    /// for separate SQ/CQ ring mappings and for the single-mmap layout (cq ring == sq ring) that
+    /// setup_io_uring produces on kernels with IORING_FEAT_SINGLE_MMAP.
+    #[kani::proof]
+    #[kani::unwind(10)]
+    pub fn c18_drop_releases_everything_exactly_once() {
+        kernel::reset();
+        kernel::set_mode(kernel::MODE_FDS | kernel::MODE_MAPS);
+        let mut m = RingMem::new();
+        let entries = any_entries();
+        let (flags, sqe128, _) = any_flags();
+        let single: bool = kani::any();
+        let sq_ptr: usize = 0x7100_0000_0000;
+        let sq_size: usize = kani::any();
+        kani::assume(sq_size > 0 && sq_size <= 1 << 20);
+        let cq_size: usize = if single { sq_size } else { kani::any() };
+        kani::assume(cq_size > 0 && cq_size <= 1 << 20);
+        let cq_ptr: usize = if single { sq_ptr } else { 0x7200_0000_0000 };
+        let sqe_bytes = (entries as usize) * if sqe128 { 128 } else { 64 };
+        let sqes_addr = m.sqes.as_ptr() as usize;
+        kernel::map_preexisting(sqes_addr, sqe_bytes);
+        kernel::map_preexisting(sq_ptr, sq_size);
+        if !single {
+            kernel::map_preexisting(cq_ptr, cq_size);
+        }
+        // an unrelated mapping and descriptor of the process: must survive
+        kernel::map_preexisting(0x7300_0000_0000, 4096);
+        let fd: i32 = 7;
+        kernel::fd_preexisting(fd as usize);
+        kernel::fd_preexisting(8);
+        let ring = ring_over(&mut m, flags, entries, entries, 0, 0, sq_ptr, sq_size, cq_ptr, cq_size, fd);
+        drop(ring);
+        assert!(kernel::bad_unmaps() == 0, "no_mapping_unmapped_twice_or_foreign");
+        assert!(kernel::maps_live() == 1, "every_ring_mapping_released_and_nothing_else");
+        assert!(kernel::bad_closes() == 0, "no_double_or_foreign_close");
+        assert!(kernel::fds_open_preexisting() == 1 && kernel::fd_is_open(8) && !kernel::fd_is_open(fd as usize), "ring_fd_closed_once_others_untouched");
+        let want_unmaps = if single { 2 } else { 3 };
+        assert!(kernel::count_nr(sc::nr::MUNMAP) == want_unmaps, "one_munmap_per_distinct_mapping");
+        assert!(kernel::count_nr(sc::nr::CLOSE) == 1, "one_close");
+        assert!(kernel::trace_len() == want_unmaps + 1, "no_other_system_call");
+        kani::cover!(single, "single-mmap layout");
+        kani::cover!(!single, "two ring mappings");
+    }
 }
